@@ -633,8 +633,9 @@ def drv_sequences(ctx, k, rng):
     L = int(rng.integers(3, 13))
     seq = []
     kept = []
+    caller_data = []
     for _ in range(L):
-        op = pick(rng, ["simulate", "hedge", "pl", "loss", "price", "fit", "to", "hedge", "pl", "clause", "payoff_and_features", "keep_binding", "relist"])
+        op = pick(rng, ["simulate", "hedge", "pl", "loss", "price", "fit", "to", "hedge", "pl", "clause", "payoff_and_features", "keep_binding", "relist", "register_data", "simulate"])
         i = int(rng.integers(3))
         d = ders[i]
         j = int(rng.integers(len(hedgers)))
@@ -645,6 +646,17 @@ def drv_sequences(ctx, k, rng):
         elif op == "to":
             ctx.branch("op.to")
             d.to(pick(rng, [F32, F64]))
+        elif op == "register_data":
+            # the caller's own series handed to the instrument as market data (the instrument keeps the tensor): a later simulation replaces the
+            # instrument's series, it never writes into the caller's tensor
+            if list(d.ul()._buffers) == ["spot"]:
+                # (two more paths than before, so that the instrument takes the tensor itself; later simulations use this path count)
+                old = d.ul().spot.detach()
+                mine = torch.cat([old, old[:2] * 1.01]).clone()
+                d.ul().register_buffer("spot", mine)
+                d._n = int(mine.shape[0])
+                caller_data.append((i, mine, mine.clone(), mine._version))
+                ctx.branch("seq.caller_series_registered")
         elif op == "relist":
             # the listed hedge is taken off the market and listed again (same pricer and cost): nothing of the earlier listing may linger
             if d._listed is not None:
@@ -703,6 +715,10 @@ def drv_sequences(ctx, k, rng):
         ctx.check(mon, ok, "history_dependence", f"after {seq} the result of hedger {j} on derivative {ders.index(D)} differs from a fresh hedger with the same parameters",
                   sig=(tuple(o[0] for o in seq)[:6], any(n == "prev_hedge" for n in names if isinstance(n, str)), type(D).__name__, j), sequence=seq,
                   used=h1.reshape(-1)[:8], fresh=h2.reshape(-1)[:8])
+    for i, mine, orig_, ver_ in caller_data:
+        ctx.seen("args.untouched")
+        ctx.check("args.untouched", mine._version == ver_ and bit_equal(mine, orig_), "caller_series_overwritten",
+                  f"after {seq} a tensor the caller registered as the spot series of derivative {i}'s underlier was written to", sig=("registered_series",), sequence=seq)
     mon = "binding.stays_bound"
     for i, bound in kept:
         d = ders[i]
